@@ -150,11 +150,13 @@ def run(ctx):
         ctx.cov["states"] += j["states"]
         ctx.cov["transitions"] += j["transitions"]
         steps += sum(1 for x in ch if x["op"] == "step")
-        for idx, verdict in j["bad"]:
+        for idx, verdict in sorted(j["bad"]):
             x = ch[idx]
+            if x["b"] in bad_behaviours:
+                continue                       # only the first mismatch of a behaviour counts: the model has diverged after it
             if verdict.startswith("harness:"):
                 raise vf.ToolError("harness step diverged from the model: %s %s" % (verdict, json.dumps(x)[:800]))
-            bad_behaviours.setdefault(x["b"], (verdict, idx, ch))        # first mismatch of a behaviour
+            bad_behaviours[x["b"]] = (verdict, idx, ch)
     for b, (verdict, idx, ch) in bad_behaviours.items():
         seq = [y for y in ch if y.get("b") == b and y["op"] == "step"]
         case = {"behaviour": [{k: y[k] for k in ("a", "r", "d", "s")} for y in seq], "failing_step": ch[idx]}
@@ -177,7 +179,8 @@ def run(ctx):
     if missing:
         raise vf.ToolError("generated behaviours never reached load branch(es) %s" % missing)
     ctx.cov["distinct_nontrivial"] += len(nontrivial)
-    self_test(ctx, recs)
+    if not ctx.violations:      # anti-vacuity of the judge; pointless (and short of clean records) once the run has failed
+        self_test(ctx, recs)
     ctx.cov["rule"] = ("behaviours = distinct random walks of MC_SecureConfig (TLC -simulate, %d actions, <= 2 actions between loads); "
                        "evaluations = replayed actions, each compared with the model state; non-trivial = behaviours containing a load "
                        "through the copied / moved / alias / regenerated / bad-id branch; distinct by action sequence" % ctx.q(8, 12))
